@@ -41,7 +41,11 @@ func checkC08(c *Ctx) {
 	}
 	c.R.Floor("publish entry points (hand-over, Server.Publish)", len(entries), 2)
 	for _, fn := range entries {
-		g := paths.New(c.P, fn, 0)
+		depth := 0
+		if len(c.calls(fn, pkgTopics, "Manager", "Retain")) == 0 {
+			depth = 1 // the retain step in a helper shared by the two entry points
+		}
+		g := paths.New(c.P, fn, depth)
 		c.guardContract(ruleP8, fn.Name()+":retain-iff-flag", g, []paths.Node{g.Entry()}, mMethod(pkgTopics, "Manager", "Retain"),
 			Assume{"call:PublishMessage.Retain": true}, Assume{"err:Server.checkConfiguration": false})
 		// what is retained is the message being published
